@@ -104,6 +104,11 @@ module Nat =
     | S n' -> (match m with
                | O -> false
                | S m' -> leb n' m')
+
+  (** val ltb : nat -> nat -> bool **)
+
+  let ltb n0 m =
+    leb (S n0) m
  end
 
 module Pos =
@@ -182,6 +187,11 @@ module Pos =
   | XI n' -> f (iter f (iter f x n') n')
   | XO n' -> iter f (iter f x n') n'
   | XH -> f x
+
+  (** val pow : positive -> positive -> positive **)
+
+  let pow x =
+    iter (mul x) XH
 
   (** val size : positive -> positive **)
 
@@ -341,6 +351,17 @@ module N =
   | N0 -> XH
   | Npos p -> Pos.succ p
 
+  (** val compare : n -> n -> comparison **)
+
+  let compare n0 m =
+    match n0 with
+    | N0 -> (match m with
+             | N0 -> Eq
+             | Npos _ -> Lt)
+    | Npos n' -> (match m with
+                  | N0 -> Gt
+                  | Npos m' -> Pos.compare n' m')
+
   (** val eqb : n -> n -> bool **)
 
   let eqb n0 m =
@@ -351,6 +372,21 @@ module N =
     | Npos p -> (match m with
                  | N0 -> false
                  | Npos q -> Pos.eqb p q)
+
+  (** val ltb : n -> n -> bool **)
+
+  let ltb x y =
+    match compare x y with
+    | Lt -> true
+    | _ -> false
+
+  (** val pow : n -> n -> n **)
+
+  let pow n0 = function
+  | N0 -> Npos XH
+  | Npos p0 -> (match n0 with
+                | N0 -> N0
+                | Npos q -> Npos (Pos.pow q p0))
 
   (** val size : n -> n **)
 
@@ -1783,3 +1819,22 @@ let rec ranges_cover r c =
     (match l with
      | [] -> false
      | b :: t -> (||) ((&&) (Z.leb a c) (Z.ltb c b)) (ranges_cover t c))
+
+(** val set_bounded_b : nat -> sset -> bool **)
+
+let set_bounded_b n0 s =
+  N.ltb s (N.pow (Npos (XO XH)) (N.of_nat n0))
+
+(** val nfa_bounded : nfa -> bool **)
+
+let nfa_bounded m =
+  (&&) (Nat.ltb O (length m))
+    (forallb (fun st ->
+      (&&)
+        ((&&)
+          ((&&)
+            ((&&) (forallb (set_bounded_b (length m)) st.n_tm.tm_sets)
+              (set_bounded_b (length m) st.n_eps))
+            (set_bounded_b (length m) st.n_bol))
+          (set_bounded_b (length m) st.n_eol))
+        (set_bounded_b (length m) st.n_eof)) m)
